@@ -143,13 +143,54 @@ func (fx *FnCtx) callStmt(st *State, call *ast.CallExpr) []outcome {
 		return []outcome{{st: st}}
 	}
 	ci := fx.resolveCallee(st, call)
-	var recv *Val
-	if ci.recvExpr != nil {
-		v := fx.eval(st, ci.recvExpr)
-		recv = &v
-	}
+	recv, back := fx.evalRecv(st, ci)
 	args := fx.evalArgs(st, call, ci.sig)
-	return fx.applyCall(st, ci, recv, args, call)
+	outs := fx.applyCall(st, ci, recv, args, call)
+	if back != nil {
+		for _, o := range outs {
+			if o.fl == flNormal {
+				back(o.st)
+			}
+		}
+	}
+	return outs
+}
+
+// evalRecv evaluates the receiver of a method call. A pointer-receiver method called on an
+// addressable non-pointer value (x.m() meaning (&x).m()) gets a temporary cell holding the value;
+// the returned function writes the cell back into x after the call.
+func (fx *FnCtx) evalRecv(st *State, ci *calleeInfo) (*Val, func(*State)) {
+	if ci.recvExpr == nil {
+		return nil, nil
+	}
+	v := fx.eval(st, ci.recvExpr)
+	if ci.sig.Recv() != nil {
+		// value-receiver method called through a pointer: (*x).m()
+		if _, recvIsPtr := derefType(ci.sig.Recv().Type()); !recvIsPtr && !isInterface(ci.sig.Recv().Type()) {
+			if el, vIsPtr := derefType(v.Ty); vIsPtr {
+				fx.safety(st, "nil", "(not (= "+v.T+" 0))", ci.recvExpr)
+				dv := fx.loadDeref(st.heap, v, el)
+				return &dv, nil
+			}
+		}
+		if el, isPtr := derefType(ci.sig.Recv().Type()); isPtr {
+			if _, vIsPtr := derefType(v.Ty); !vIsPtr && !isInterface(v.Ty) {
+				if _, stt := namedStruct(el); stt == nil {
+					s := fx.sc.SortOf(el)
+					hn, hs := derefHeap(s), "(Array Int "+s+")"
+					r := fx.allocRef(st, "addr")
+					fx.setHeap(st, hn, hs, "(store "+fx.heapArr(st.heap, hn, hs)+" "+r+" "+v.T+")")
+					rv := Val{r, "Int", types.NewPointer(el)}
+					recvExpr := ci.recvExpr
+					return &rv, func(s2 *State) {
+						nv := Val{"(select " + fx.heapArr(s2.heap, hn, hs) + " " + r + ")", s, el}
+						fx.assign(s2, recvExpr, nv)
+					}
+				}
+			}
+		}
+	}
+	return &v, nil
 }
 
 func (fx *FnCtx) isBuiltinOrConv(call *ast.CallExpr) bool {
@@ -218,13 +259,16 @@ func (fx *FnCtx) evalCall(st *State, call *ast.CallExpr) []Val {
 		return vs
 	}
 	ci := fx.resolveCallee(st, call)
-	var recv *Val
-	if ci.recvExpr != nil {
-		v := fx.eval(st, ci.recvExpr)
-		recv = &v
-	}
+	recv, back := fx.evalRecv(st, ci)
 	args := fx.evalArgs(st, call, ci.sig)
 	outs := fx.applyCall(st, ci, recv, args, call)
+	if back != nil {
+		for _, o := range outs {
+			if o.fl == flNormal {
+				back(o.st)
+			}
+		}
+	}
 	// exceptional outcomes inside expressions: record as pending panic forks
 	var normal *State
 	for _, o := range outs {
@@ -675,7 +719,14 @@ func (fx *FnCtx) applyCall(st *State, ci *calleeInfo, recv *Val, args []Val, at 
 			}
 		}
 		for _, c := range cas {
-			goal := fx.specBool(fx.env(st), c.Expr)
+			ce := fx.env(st)
+			ce.bound = map[string]Val{}
+			for k, v := range cenv.named {
+				if _, clash := st.named[k]; !clash {
+					ce.bound[k] = v // parameter names of the callee (where they do not shadow a caller name)
+				}
+			}
+			goal := fx.specBool(ce, c.Expr)
 			fx.emit(st, fmt.Sprintf("before(%s):assert[%s]", ci.key, c.Label), "call-assert", c.Tags, goal, c.Src, fx.pos(at))
 			st.assume(goal)
 		}
